@@ -1,7 +1,10 @@
 mod lexrec;
 mod lexrows;
 mod model;
+mod progs;
 mod report;
+mod session;
+mod sessrec;
 
 use report::Report;
 use std::io::Read;
@@ -32,6 +35,15 @@ fn main() {
         // vh lex-record <seed> <n> <out.ndjson>
         "lex-record" => {
             lexrec::record(args[2].parse().unwrap(), args[3].parse().unwrap(), &args[4]);
+        }
+        // vh sess-record progs <seed> <n> <out.ndjson> [input] [trace] [warn]
+        "sess-record" => {
+            let flags: Vec<&str> = args[6..].iter().map(|s| s.as_str()).collect();
+            match args[2].as_str() {
+                "progs" => sessrec::record_programs(args[3].parse().unwrap(), args[4].parse().unwrap(), &args[5],
+                    flags.contains(&"input"), flags.contains(&"trace"), flags.contains(&"warn")),
+                other => { eprintln!("unknown driver {}", other); std::process::exit(2); }
+            }
         }
         _ => {
             eprintln!("usage: vh <lex-replay> ...");
